@@ -1,6 +1,7 @@
 import Pyunicorn.Model.Proto
 import Pyunicorn.Model.Memo
 import Pyunicorn.Model.MemoNested
+import Pyunicorn.Model.MemoMode
 import Pyunicorn.Generated.StructC01
 /-! Line-protocol driver for C01. -/
 open Pyunicorn Pyunicorn.Proto Pyunicorn.Memo Pyunicorn.Generated
@@ -56,8 +57,60 @@ def runNHist (t : NTable) (ops : List Op) : List String :=
       out :: go r.1 rest
   go State.init ops
 
+def parseXOp (s : String) : Option XOp :=
+  if s.startsWith "x" then
+    match (s.drop 1).toString.splitOn "." with
+    | [a, b] => do some (XOp.raises (← a.toNat?) (← b.toNat?) [0])
+    | _ => none
+  else (parseOp s).map XOp.op
+
+/-- as `runNHist`, with raising calls `x<m>.<a>` (output `-`) -/
+def runXHist (t : NTable) (ops : List XOp) : List String :=
+  let rec go (s : State) : List XOp → List String
+    | [] => []
+    | op :: rest =>
+      let r := xstep t s op
+      let out := match op, r.2 with
+        | .op (.query mi a), some (v, c) =>
+          let log := (nquery t (mi + 1) s mi a).log
+          join (log.map fun (m, a, h) => s!"{m}.{a}.{if h then "H" else "M"}") "+" ++
+            (if v == c then "=1" else "=0")
+        | _, _ => "-"
+      out :: go r.1 rest
+  go State.init ops
+
+def mtableOf (name : String) : Option Mode.MTable :=
+  (StructC01.allMTables.find? (·.1 == name)).map (·.2)
+
 def answer (toks : List String) : String :=
   match toks with
+  | ["modewf", c] => match mtableOf c with
+      | some t => if Mode.modeWf t then "1" else "0"
+      | none => "no-such-class"
+  | ["modefields", c] => match mtableOf c with
+      | some t => showNatsD (Mode.modeFields t)
+      | none => "no-such-class"
+  | ["modeoffending", c] => match mtableOf c with
+      | some t => let o := Mode.modeOffending t
+          if o.isEmpty then "-" else join (o.map fun (a, b) => s!"{a}:{b}") ","
+      | none => "no-such-class"
+  | ["modetaint", c, oi] => match mtableOf c, oi.toNat? with
+      | some t, some oi => match t.mutators[oi]? with
+          | some evs => showNatsD (Mode.taintOf (Mode.modeFields t) evs)
+          | none => "bad-request"
+      | _, _ => "bad-request"
+  /- per mode field of the class: `f:c<k>` every assignment of f in mutator oi stores constant k,
+     `f:e` f is assigned some other way, `f:-` f is not assigned by the mutator -/
+  | ["modeconst", c, oi] => match mtableOf c, oi.toNat? with
+      | some t, some oi => match t.mutators[oi]? with
+          | some evs =>
+            let fs := Mode.modeFields t
+            if fs.isEmpty then "-" else join (fs.map fun f =>
+              match Mode.alwaysConst evs f with
+              | some k => s!"{f}:c{k}"
+              | none => if (evs.any fun e => e.target == f) then s!"{f}:e" else s!"{f}:-") ","
+          | none => "bad-request"
+      | _, _ => "bad-request"
   | ["nwf", c] => match ntableOf c with
       | some t => if nwf t then "1" else "0"
       | none => "no-such-class"
@@ -79,6 +132,9 @@ def answer (toks : List String) : String :=
       | _, _, _ => "bad-request"
   | ["maxsize", c] => match ntableOf c with
       | some t => match t.maxsize with | some k => toString k | none => "none"
+      | none => "no-such-class"
+  | ["xhist", c, ops] => match ntableOf c with
+      | some t => join (runXHist t ((splitTok ops ",").filterMap parseXOp)) ","
       | none => "no-such-class"
   | ["nhist", c, ops] => match ntableOf c with
       | some t => join (runNHist t ((splitTok ops ",").filterMap parseOp)) ","
